@@ -232,6 +232,7 @@ def main(ctx):
             ctx.require("%s:%s" % (m, k))
     ctx.require("scram-argon2:welcome_accepted")
     ctx.require("scram_reuse_steps")
+    ctx.require("cra_authenticator_reused")
     ctx.require("scram_reuse_stale_rejected")
     ctx.require("scram_welcome_without_challenge")
     ctx.require("scram-argon2:welcome_rejected", 256)
@@ -591,6 +592,34 @@ def _cra(o, R, auth, a):
             for kl in a["keylens"]:
                 for ci, ch in enumerate(a["challenges"]):
                     one(salt, it, kl, ch, (si + a["salt_base"], it, kl, ci) in fl)
+    # ---- ONE authenticator object answering several challenges in a row (a component hands the same
+    # authenticator to every session it creates): each answer is the reference signature for THAT
+    # challenge, whatever the object has answered before
+    import itertools
+    menu = [None] + [(s_, a["iters"][0], a["keylens"][0]) for s_ in a["salts"][:2]]
+    for seq in itertools.product(range(len(menu)), repeat=3):
+        au = auth.create_authenticator("wampcra", authid="joe", secret=sb if a["secret_as_bytes"] else secret)
+        for step, mi in enumerate(seq):
+            ch = a["challenges"][step % len(a["challenges"])]
+            extra = {"challenge": ch}
+            if menu[mi] is not None:
+                extra.update(salt=menu[mi][0], iterations=menu[mi][1], keylen=menu[mi][2])
+            o.evals += 1
+            o.stats["cra_authenticator_reused"] += 1
+            try:
+                got = au.on_challenge(sess, types.Challenge("wampcra", dict(extra)))
+            except Exception as e:
+                got = "raised %r" % (e,)
+            exp = R.cra_signature(secret, extra)
+            if got != exp:
+                o.bad("C19|cra|authenticator-reused|mismatch",
+                      "secret=%r: one AuthWampCra object, challenge %d of the sequence %s (extra %r): expected %s got %r" % (
+                          secret, step + 1, [("unsalted" if menu[i] is None else "salt=%r" % (menu[i][0],)) for i in seq],
+                          extra, exp, got),
+                      {"kind": "cra", "secret": secret, "secret_as_bytes": a["secret_as_bytes"],
+                       "salts": a["salts"][:2], "unsalted": False, "iters": a["iters"][:1],
+                       "keylens": a["keylens"][:1], "challenges": a["challenges"], "faults": [], "salt_base": 0})
+                break
 
 
 # ------------------------------------------------------------------ TOTP / ticket
